@@ -1015,3 +1015,40 @@ package profile
 //@     invariant mres: locsame(p) && forall j int :: 0 <= j && j < len(p.Location) && p.Location[j].Mapping != nil ==> p.Location[j].Mapping.ID == old(p.Location[j].mappingIDX)
 //@     invariant samesamples: len(p.Sample) == old(len(p.Sample)) && forall j int :: 0 <= j && j < len(p.Sample) ==> p.Sample[j] == old(p.Sample[j])
 //@     invariant loclen: forall j int :: 0 <= j && j < len(p.Sample) ==> len(p.Sample[j].Location) == old(len(p.Sample[j].locationIDX)) && p.Sample[j].locationIDX == nil
+
+// ---- C03: mapSample — a stack seen before (same sample key) accumulates the source values element-wise into the
+// memoised sample and adds nothing to the profile; a new stack becomes one new sample, appended last, memoised under
+// its key, with the source's values and as many locations ----
+//@ func profileMerger.mapSample arith bv
+//@   requires pm != nil && pm.p != nil && pm.samples != nil && src != nil
+//@   requires memo_ok: forall k sampleKey :: has(pm.samples, k) ==> pm.samples[k] != nil && len(pm.samples[k].Value) >= len(src.Value) && (len(src.Value) == 0 || !same_array(pm.samples[k].Value, src.Value))
+//@   ensures hit_same: aftercall("profileMerger.sampleKey", has(pm.samples, callres("profileMerger.sampleKey", 0))) ==> result == aftercall("profileMerger.sampleKey", pm.samples[callres("profileMerger.sampleKey", 0)]) && len(pm.p.Sample) == aftercall("profileMerger.sampleKey", len(pm.p.Sample))
+//@   ensures hit_sum: aftercall("profileMerger.sampleKey", has(pm.samples, callres("profileMerger.sampleKey", 0))) ==> forall i int :: 0 <= i && i < len(src.Value) ==> result.Value[i] == aftercall("profileMerger.sampleKey", pm.samples[callres("profileMerger.sampleKey", 0)].Value[i]) + src.Value[i]
+//@   ensures hit_rest: aftercall("profileMerger.sampleKey", has(pm.samples, callres("profileMerger.sampleKey", 0))) ==> forall i int :: len(src.Value) <= i && i < len(result.Value) ==> result.Value[i] == aftercall("profileMerger.sampleKey", pm.samples[callres("profileMerger.sampleKey", 0)].Value[i])
+//@   ensures miss_new: !aftercall("profileMerger.sampleKey", has(pm.samples, callres("profileMerger.sampleKey", 0))) ==> result != nil && fresh(result) && has(pm.samples, callres("profileMerger.sampleKey", 0)) && pm.samples[callres("profileMerger.sampleKey", 0)] == result
+//@   ensures miss_listed: !aftercall("profileMerger.sampleKey", has(pm.samples, callres("profileMerger.sampleKey", 0))) ==> len(pm.p.Sample) == aftercall("profileMerger.sampleKey", len(pm.p.Sample)) + 1 && pm.p.Sample[len(pm.p.Sample) - 1] == result
+//@   ensures miss_values: !aftercall("profileMerger.sampleKey", has(pm.samples, callres("profileMerger.sampleKey", 0))) ==> len(result.Value) == len(src.Value) && len(result.Location) == len(src.Location) && forall i int :: 0 <= i && i < len(src.Value) ==> result.Value[i] == src.Value[i]
+//@   ensures miss_labels: !aftercall("profileMerger.sampleKey", has(pm.samples, callres("profileMerger.sampleKey", 0))) ==> forall k string :: (has(src.Label, k) <==> has(result.Label, k)) && (has(src.Label, k) ==> len(result.Label[k]) == len(src.Label[k]) && forall j int :: 0 <= j && j < len(src.Label[k]) ==> result.Label[k][j] == src.Label[k][j])
+//@   ensures miss_numdom: !aftercall("profileMerger.sampleKey", has(pm.samples, callres("profileMerger.sampleKey", 0))) ==> forall k string :: (has(src.NumLabel, k) <==> has(result.NumLabel, k))
+//@   ensures miss_numlen: !aftercall("profileMerger.sampleKey", has(pm.samples, callres("profileMerger.sampleKey", 0))) ==> forall k string :: has(src.NumLabel, k) ==> len(result.NumLabel[k]) == len(src.NumLabel[k]) && len(result.NumUnit[k]) == len(src.NumUnit[k])
+// (withdrawn: element-wise equality of the copied numeric label values did not discharge within 20 s; key sets and
+// lengths of values and units are proved, the values themselves are listed as not decided)
+//@   loop 1
+//@     invariant 0 <= $i && $i <= len(src.Value) && ss != nil && ss == aftercall("profileMerger.sampleKey", pm.samples[callres("profileMerger.sampleKey", 0)]) && len(ss.Value) >= len(src.Value)
+//@     invariant len(pm.p.Sample) == aftercall("profileMerger.sampleKey", len(pm.p.Sample))
+//@     invariant done: forall i int :: 0 <= i && i < $i ==> ss.Value[i] == aftercall("profileMerger.sampleKey", pm.samples[callres("profileMerger.sampleKey", 0)].Value[i]) + src.Value[i]
+//@     invariant todo: forall i int :: $i <= i && i < len(ss.Value) ==> ss.Value[i] == aftercall("profileMerger.sampleKey", pm.samples[callres("profileMerger.sampleKey", 0)].Value[i])
+//@     invariant srcsame: forall i int :: 0 <= i && i < len(src.Value) ==> src.Value[i] == aftercall("profileMerger.sampleKey", src.Value[i])
+//@   loop 3
+//@     invariant s != nil && fresh(s) && s.Label != nil && fresh(s.Label) && src != nil
+//@     invariant lab_done: forall k string :: visited(k) ==> has(s.Label, k) && len(s.Label[k]) == len(src.Label[k]) && forall j int :: 0 <= j && j < len(src.Label[k]) ==> s.Label[k][j] == src.Label[k][j]
+//@     invariant lab_only: forall k string :: has(s.Label, k) ==> has(src.Label, k) && visited(k)
+//@     invariant distinct_maps: s.NumUnit != nil && s.NumLabel != nil && s.Label != s.NumUnit && fresh(s.NumUnit) && fresh(s.NumLabel)
+//@     invariant src_same: forall k string :: has(src.Label, k) == atloop(3, has(src.Label, k))
+//@   loop 4
+//@     invariant s != nil && fresh(s) && s.Label != nil && fresh(s.Label) && src != nil && s.NumUnit != nil && s.NumLabel != nil && s.Label != s.NumUnit && fresh(s.NumUnit) && fresh(s.NumLabel)
+//@     invariant lab_all: forall k string :: (has(src.Label, k) <==> has(s.Label, k)) && (has(src.Label, k) ==> len(s.Label[k]) == len(src.Label[k]) && forall j int :: 0 <= j && j < len(src.Label[k]) ==> s.Label[k][j] == src.Label[k][j])
+//@     invariant num_done: forall k string :: visited(k) ==> has(s.NumLabel, k) && len(s.NumLabel[k]) == len(src.NumLabel[k]) && len(s.NumUnit[k]) == len(src.NumUnit[k]) && forall j int :: 0 <= j && j < len(src.NumLabel[k]) ==> s.NumLabel[k][j] == src.NumLabel[k][j]
+//@     invariant num_only: forall k string :: has(s.NumLabel, k) ==> has(src.NumLabel, k) && visited(k)
+//@     invariant src_same: forall k string :: has(src.NumLabel, k) == atloop(4, has(src.NumLabel, k))
+//@     invariant sep: fresh(s.Value) && forall k string :: has(s.NumLabel, k) && len(s.NumLabel[k]) > 0 ==> !same_array(s.NumLabel[k], s.Value)
